@@ -12,6 +12,13 @@ struct colvarvalue {
   void reset() { real_value = cvm::real(0.0); }
   void type(colvarvalue const &) {}
   void is_derivative() {}
+  int type() const { return value_type; }
+  colvarvalue(int t) : value_type(t) {}       // colvarvalue(Type): an unset value of that type
+  void apply_constraints() {}
+  colvarvalue &operator+=(colvarvalue const &b) { real_value += b.real_value; return *this; }
+  colvarvalue &operator-=(colvarvalue const &b) { real_value -= b.real_value; return *this; }
+  colvarvalue &operator*=(cvm::real const &a) { real_value *= a; return *this; }
+  colvarvalue &operator/=(cvm::real const &a) { real_value /= a; return *this; }
   // the type-based (not periodic-aware) metric of the real class: uninterpreted calls of their own
   cvm::real dist2(colvarvalue const &x2) const { return sreal_call(CID_CVV_DIST2, real_value.nid(), x2.real_value.nid()); }
   colvarvalue dist2_grad(colvarvalue const &x2) const { colvarvalue r(sreal_call(CID_CVV_DIST2_GRAD, real_value.nid(), x2.real_value.nid())); return r; }
@@ -25,4 +32,5 @@ inline cvm::real operator*(colvarvalue const &x, colvarvalue const &y) { return 
 inline colvarvalue operator+(colvarvalue const &x, colvarvalue const &y) { colvarvalue r(x.real_value + y.real_value); return r; }
 inline colvarvalue operator-(colvarvalue const &x, colvarvalue const &y) { colvarvalue r(x.real_value - y.real_value); return r; }
 inline colvarvalue operator/(colvarvalue const &x, cvm::real const &a) { colvarvalue r(x.real_value / a); return r; }
+inline colvarvalue operator*(colvarvalue const &x, double a) { colvarvalue r(x.real_value * a); return r; }
 #endif
